@@ -7,7 +7,7 @@ for l in open('/verif/properties.jsonl'):
     d = json.loads(l)
     if d['id'] == pid:
         break
-print(f"""You are given a scratch git worktree of the FuelLabs/sway repository (the Sway compiler toolchain: parser, type checker, IR optimizer, FuelVM backend, forc package manager, formatter, LSP) at {wt}. Work ONLY inside {wt} (never touch /repo or /verif; you know nothing about any verification machinery and must not look for it). There is no network; build with `cargo ... --offline` and set `CARGO_TARGET_DIR=/tmp/mut/target` for every cargo command (a shared cache; cargo serialises concurrent builds, be patient: builds can take 10-20 minutes on this busy machine).
+print(f"""You are given a scratch git worktree of the FuelLabs/sway repository (the Sway compiler toolchain: parser, type checker, IR optimizer, FuelVM backend, forc package manager, formatter, LSP) at {wt}. Work ONLY inside {wt} (never touch /repo or /verif; you know nothing about any verification machinery and must not look for it). There is no network; build with `cargo ... --offline` and set `CARGO_TARGET_DIR=/tmp/mut/target` for every cargo command (a cache shared with other worktrees: cargo serialises concurrent builds, be patient -- builds can take 10-30 minutes on this busy machine; IMPORTANT: other worktrees share the same artifact hashes, so before EVERY cargo command `touch -d "+2 days"` the source files you changed and the lib.rs of their crate, and double check from the "Compiling ... ({wt}/...)" lines that the run really used YOUR tree; copy any binary you need right after building it).
 
 Here is a semantic property that the toolchain is supposed to satisfy:
 
@@ -16,11 +16,11 @@ Here is a semantic property that the toolchain is supposed to satisfy:
   Quantified over: {d['quantifier']['text']}
   Where it lives: {', '.join(d['anchors'].get('files', []))}
 
-Your task: produce ONE realistic change to the repository's source (the kind of bug a maintainer could plausibly introduce in a refactoring, optimisation or "simplification" commit) that BREAKS this property while the code still compiles and the repository's existing tests still pass. The change must need something specific to manifest -- a particular interleaving, a crash or fault at a particular point, a multi-step sequence of operations, an unusual input, or two cooperating sites that each look fine alone -- not something ordinary use would expose at once. Do not add new tests to the repository's test suite as part of the change, do not touch test files, do not change cfg(fuellabs_sway_verif) hook code (ignore it), keep the change small (ideally < 30 changed lines).
+Your task: produce ONE realistic change to the repository's source (the kind of bug a maintainer could plausibly introduce in a refactoring, optimisation or "simplification" commit) that BREAKS this property while the code still compiles and the repository's existing tests still pass. The change must need something specific to manifest -- a particular interleaving, a crash or fault at a particular point, a multi-step sequence of operations, an unusual input, or two cooperating sites that each look fine alone -- not something ordinary use would expose at once. Do not add new tests to the repository's test suite as part of the change, do not touch test files, #[cfg(test)] modules or snapshot files, do not change or remove lines guarded by cfg(fuellabs_sway_verif) (inert instrumentation; leave them where they are), keep the change small (ideally < 30 changed lines).
 
 Deliver, in the directory {wt}/_seeded/ (create it; it is not part of the repo):
   1. patch.diff  -- `git -C {wt} diff` of your change (source files only; make sure `_seeded/` itself is not in the diff).
-  2. a demonstration -- a small Rust test file, script or Sway program with exact instructions (demo.md) that FAILS (shows the property violated) with the change and PASSES without it. Run it both ways yourself and paste both outputs into demo.md. A standalone cargo test you run with `cargo test -p <crate> --offline <name>` from a temporary test file is fine (describe where to put it); the demonstration is NOT part of patch.diff.
+  2. a demonstration -- a small Rust test file, script or Sway program with exact instructions (demo.md) that FAILS (shows the property violated) with the change and PASSES without it. Run it both ways yourself and paste both outputs into demo.md. A standalone cargo test you run with `cargo test -p <crate> --offline <name>` from a temporary test file is fine (describe where to put it). For compiler properties a small Sway package is best: you may build the forc binary (`CARGO_TARGET_DIR=/tmp/mut/target cargo build -p forc --offline`, then `/tmp/mut/target/debug/forc build|test --path <pkg> [--release] [--logs]`; in the package's Forc.toml use `std = {{ path = "{wt}/sway-lib-std" }}`). The demonstration is NOT part of patch.diff.
   3. meta.json -- {{"property": "{pid}", "summary": one sentence, "needs_to_manifest": what specific input/sequence/interleaving is required, "files_changed": [...], "tests_run": the exact commands you ran to check that the existing tests of the affected crate(s) still pass and their result}}.
 
 Check that the existing tests of the crates you touched still pass with your change (`CARGO_TARGET_DIR=/tmp/mut/target cargo test -p <crate> --offline`; a few tests that need the network fail with and without the change -- compare against a run without your change if a failure looks unrelated). Leave the worktree WITH your change applied when you finish. Reply with a short summary: what you changed, why it breaks the property, what it needs to manifest, and the outputs of the demonstration with and without the change.""")
